@@ -211,6 +211,19 @@ def run(ctx):
         ctx.decide(okb, "C19.ac", ac.ident, loc_of(ac), "no previous value -> delete; previous value -> reassign it",
                    "the restore branches are attached to the wrong case of 'previous value is None'", disc="polarity")
 
+    # the settings a context installs are its own arguments: a value taken from whatever defaults were in force before (`prev`) makes the inner context
+    # inherit from the enclosing one -- and an instance built by resume_from_file comes with pre-set defaults (save_config=False) that are no context at all
+    if len(over) == 1 and isinstance(over[0].ast, ast.Assign) and isinstance(over[0].ast.value, ast.Dict):
+        inherited = []
+        for k_, v_ in zip(over[0].ast.value.keys, over[0].ast.value.values):
+            okv = isinstance(v_, ast.Constant) or (isinstance(v_, ast.Name) and v_.id in ac.params)
+            if not okv:
+                inherited.append((k_, v_))
+        ctx.decide(not inherited, "C19.ac", ac.ident, loc_of(ac, inherited[0][1] if inherited else over[0].ast),
+                   "every setting the context installs is one of its own arguments (or a constant)",
+                   (f"the installed defaults contain {ast.unparse(inherited[0][0]) if inherited[0][0] is not None else '**'}: {ast.unparse(inherited[0][1])[:60]}, which is not an argument of this "
+                    "call: settings left unspecified are taken from the defaults that were in force on entry, so `with resumed.auto_checkpoint(path)` inherits the resume constructor's "
+                    "save_config=False and the configuration written next to the new checkpoint is never refreshed") if inherited else "", disc="own-settings")
     # every attribute the context overwrites on entry is put back on exit: state written before the yield (directly or through a helper method of the
     # same object) other than the saved-and-restored defaults is left at the inner context's value when an enclosing context resumes
     def _self_stores(fn, me_):
@@ -390,6 +403,9 @@ MUTANTS += [
 ]
 MUTANTS += [
     M("enable_pool hands back the handler it already has", _A, "return PoolHandler(self, pool, **kwargs)", "handler = getattr(self, \"pool_handler\", None)\n        if handler is not None and handler.pool is pool:\n            return handler\n        self.pool_handler = PoolHandler(self, pool, **kwargs)\n        return self.pool_handler", "C19.ph"),
+]
+MUTANTS += [
+    M("unspecified options of a nested context are taken from the enclosing defaults", _A, "\"save_config\": save_config,", "\"save_config\": save_config if save_config is not None else (prev or {}).get(\"save_config\", True),", "C19.ac"),
 ]
 NEUTRALS = [
     M("clean-up logs before and does work after the restore", _A, "finally:\n            if prev is None:\n                if hasattr(self, \"_checkpoint_defaults\"):\n                    delattr(self, \"_checkpoint_defaults\")\n            else:\n                self._checkpoint_defaults = prev",
